@@ -1,5 +1,194 @@
-From Coq Require Import List Bool Arith.
+(* C10 — the generation-time check enforces the property wherever the tables say so. *)
+From Coq Require Import List Bool Arith Lia.
 Import ListNotations.
-From PV Require Import C10.Kinds C10.Gen C10.Model C10.Compiler.
-Lemma placeholder_ : gen_ok [Leaf LAssign] = true.
+From PV Require Import C10.Kinds C10.Gen C10.Model C10.Cover C10.Lemmas.
+
+Lemma existsb_false_In : forall (A : Type) (f : A -> bool) l x, existsb f l = false -> In x l -> f x = false.
+Proof.
+  induction l as [| y l IH]; intros x H Hx; [contradiction |].
+  simpl in H. apply orb_false_iff in H as [H1 H2]. destruct Hx as [<- | Hx]; [assumption | apply IH; assumption].
+Qed.
+
+(* ---------------------------------------------------------------- clause 1 *)
+Lemma req_cover_unfold : forall fuel T k, req_cover fuel T k =
+  existsb (fun r =>
+    match r with
+    | GRequireAnc ty ex =>
+        forallb (fun a => mem a ex || mem a T || match fuel with 0 => false | S f => req_cover f T a end) ty
+    | _ => false
+    end) (gen_rules k).
+Proof. destruct fuel; reflexivity. Qed.
+
+Lemma req_cover_routine : forall f T, req_cover f T NRoutine = false.
+Proof. destruct f; reflexivity. Qed.
+
+Lemma req_cover_sound : forall fuel T k, req_cover fuel T k = true ->
+  forall r, gen_ok r = true -> forall anc n, In (anc, n) (rnodes r) -> kind_of n = k -> any_in T anc = true.
+Proof.
+  induction fuel as [| f IH]; intros T k Hc r Hg anc n Hp Hk; rewrite req_cover_unfold in Hc;
+    apply existsb_exists in Hc as [ru [Hru Hf]]; destruct ru as [ty ex | | | | | |]; try discriminate Hf;
+    subst k; pose proof (gen_ok_rule r Hg anc n Hp _ Hru) as He; simpl in He;
+    destruct (anc_match ty ex anc) eqn:Ea; try discriminate He;
+    unfold anc_match in Ea; apply existsb_exists in Ea as [a [Ha Hm]];
+    apply andb_true_iff in Hm as [Hm1 Hm2]; apply negb_true_iff in Hm2;
+    rewrite forallb_forall in Hf; assert (Hfa := Hf a (proj1 (mem_In _ _) Hm1));
+    rewrite Hm2 in Hfa; simpl in Hfa.
+  - rewrite orb_false_r in Hfa. apply any_in_spec. exists a; split; [assumption | apply mem_In; assumption].
+  - apply orb_true_iff in Hfa as [Hfa | Hfa].
+    + apply any_in_spec. exists a; split; [assumption | apply mem_In; assumption].
+    + destruct (rnodes_anc_node r anc n Hp a Ha) as [-> | [anc' [m [Hm [Hkm Hs]]]]].
+      * rewrite req_cover_routine in Hfa; discriminate Hfa.
+      * eapply any_in_mono; [exact Hs |]. eapply IH; eauto.
+Qed.
+
+Lemma acc_loop_cover_sound : acc_loop_cover = true ->
+  forall r, gen_ok r = true -> forall anc n, In (anc, n) (rnodes r) -> kind_of n = ND ACCLoop ->
+  any_in acc_compute anc = true \/ mem (NS ACCRoutine) (rkinds r) = true.
+Proof.
+  intros Hc r Hg anc n Hp Hk. unfold acc_loop_cover in Hc. apply existsb_exists in Hc as [ru [Hru Hf]].
+  rewrite <- Hk in Hru. pose proof (gen_ok_rule r Hg anc n Hp _ Hru) as He.
+  destruct ru as [ty ex | | | | | | ty wk]; try discriminate Hf; simpl in He.
+  - destruct (anc_match ty ex anc) eqn:Ea; try discriminate He.
+    unfold anc_match in Ea. apply existsb_exists in Ea as [a [Ha Hm]].
+    apply andb_true_iff in Hm as [Hm1 Hm2]. apply negb_true_iff in Hm2.
+    rewrite forallb_forall in Hf. assert (Hfa := Hf a (proj1 (mem_In _ _) Hm1)).
+    rewrite Hm2 in Hfa. simpl in Hfa. left. apply any_in_spec. exists a; split; [assumption | apply mem_In; assumption].
+  - apply andb_true_iff in Hf as [Hs1 Hs2].
+    destruct (any_in ty anc) eqn:E1.
+    + left. apply any_in_spec in E1 as [a [Ha Hin]]. apply any_in_spec. exists a; split; [assumption |].
+      eapply sub_spec; eassumption.
+    + simpl in He. destruct (any_in wk (rkinds r)) eqn:E2; try discriminate He.
+      right. apply any_in_spec in E2 as [a [Ha Hin]]. pose proof (sub_spec _ _ Hs2 a Hin) as Hx.
+      destruct Hx as [<- | []]. apply mem_In; assumption.
+Qed.
+
+Lemma mem_singleton : forall k x, mem k [x] = true -> k = x.
+Proof. intros k x H. apply mem_In in H. destruct H as [H | []]; auto. Qed.
+
+Lemma orphan_case : forall r, gen_ok r = true -> forall anc n, In (anc, n) (rnodes r) ->
+  orphan_b (rkinds r) anc (kind_of n) = true -> uncheck WOrphan (kind_of n) = true.
+Proof.
+  intros r Hg anc n Hp H. unfold orphan_b in H.
+  apply orb_true_iff in H as [H | H]; [apply orb_true_iff in H as [H | H] |].
+  - apply andb_true_iff in H as [Hm Hn]. apply negb_true_iff in Hn.
+    unfold uncheck, orphan_targets. rewrite Hm.
+    destruct (req_cover 3 omp_par (kind_of n)) eqn:E; [| reflexivity].
+    rewrite (req_cover_sound _ _ _ E r Hg anc n Hp eq_refl) in Hn. discriminate Hn.
+  - apply andb_true_iff in H as [Hm Hn]. apply negb_true_iff in Hn.
+    pose proof (mem_singleton _ _ Hm) as Ek.
+    unfold uncheck, orphan_targets. rewrite Ek. cbn [mem existsb nkind_eqb dkind_eqb orb].
+    destruct (req_cover 3 (ND OMPTarget :: omp_par) (ND OMPLoop)) eqn:E; [| reflexivity].
+    rewrite (req_cover_sound _ _ _ E r Hg anc n Hp Ek) in Hn. discriminate Hn.
+  - apply andb_true_iff in H as [H Hr]. apply andb_true_iff in H as [Hm Hn].
+    apply negb_true_iff in Hn. apply negb_true_iff in Hr.
+    pose proof (mem_singleton _ _ Hm) as Ek.
+    unfold uncheck, orphan_targets. rewrite Ek. cbn [mem existsb nkind_eqb dkind_eqb orb].
+    destruct acc_loop_cover eqn:E; [| reflexivity].
+    destruct (acc_loop_cover_sound E r Hg anc n Hp Ek) as [Hx | Hx]; congruence.
+Qed.
+
+(* ---------------------------------------------------------------- clause 2 *)
+Lemma nest_cover_sound : forall k P, nest_cover k P = true ->
+  forall r, gen_ok r = true -> forall anc n, In (anc, n) (rnodes r) -> kind_of n = k -> any_in P anc = false.
+Proof.
+  intros k P Hc r Hg anc n Hp Hk. unfold nest_cover in Hc. apply existsb_exists in Hc as [ru [Hru Hf]].
+  subst k. pose proof (gen_ok_rule r Hg anc n Hp _ Hru) as He.
+  destruct ru as [| ty ex | | | | |]; try discriminate Hf. simpl in He.
+  apply andb_true_iff in Hf as [Hs Hex]. destruct ex; [| discriminate Hex].
+  destruct (anc_match ty [] anc) eqn:Ea; try discriminate He.
+  destruct (any_in P anc) eqn:E; [| reflexivity].
+  apply any_in_spec in E as [a [Ha Hin]].
+  unfold anc_match in Ea.
+  assert (Hx : mem a ty && negb (mem a []) = true).
+  { apply andb_true_iff; split; [apply mem_In; eapply sub_spec; eassumption | reflexivity]. }
+  rewrite (existsb_false_In _ _ _ a Ea Ha) in Hx. discriminate Hx.
+Qed.
+
+Lemma nested_case : forall r, gen_ok r = true -> forall anc n, In (anc, n) (rnodes r) ->
+  nested_b anc (kind_of n) = true -> uncheck WNested (kind_of n) = true.
+Proof.
+  intros r Hg anc n Hp H. unfold nested_b in H. apply orb_true_iff in H as [H | H];
+    apply andb_true_iff in H as [Hm Ha]; unfold uncheck.
+  - rewrite Hm. destruct (nest_cover (kind_of n) omp_par) eqn:E; [| reflexivity].
+    rewrite (nest_cover_sound _ _ E r Hg anc n Hp eq_refl) in Ha. discriminate Ha.
+  - assert (Ho : mem (kind_of n) omp_par = false).
+    { apply mem_In in Hm. destruct Hm as [E | [E | []]]; rewrite <- E; reflexivity. }
+    rewrite Ho, Hm. destruct (nest_cover (kind_of n) acc_compute) eqn:E; [| reflexivity].
+    rewrite (nest_cover_sound _ _ E r Hg anc n Hp eq_refl) in Ha. discriminate Ha.
+Qed.
+
+(* ---------------------------------------------------------------- clause 3 *)
+Lemma catom_eqb_eq : forall a b, catom_eqb a b = true -> a = b.
+Proof. destruct a, b; simpl; intro H; try reflexivity; discriminate H. Qed.
+
+Lemma collapse_walk_perfect : forall atoms,
+  existsb (catom_eqb CNotOnlyChild) atoms = true -> existsb (catom_eqb CNotLoop) atoms = true ->
+  forall c b, collapse_walk atoms c b = Ok -> perfect_b c b = true.
+Proof.
+  intros atoms H1 H2. apply existsb_exists in H1 as [a1 [Hi1 He1]]. apply catom_eqb_eq in He1. subst a1.
+  apply existsb_exists in H2 as [a2 [Hi2 He2]]. apply catom_eqb_eq in He2. subst a2.
+  induction c as [| c IH]; intros b H; [reflexivity |].
+  simpl in H. destruct b as [| cur rest]; [discriminate H |].
+  destruct (existsb (atom_true (cur :: rest) cur) atoms) eqn:E; [discriminate H |].
+  pose proof (existsb_false_In _ _ _ _ E Hi1) as A1. pose proof (existsb_false_In _ _ _ _ E Hi2) as A2.
+  simpl in A1, A2. apply negb_false_iff in A1. apply negb_false_iff in A2.
+  destruct rest; [| destruct rest; discriminate A1].
+  destruct cur as [| b' | | |]; try discriminate A2.
+  destruct b' as [| x b'']; [discriminate H |].
+  simpl. apply IH. exact H.
+Qed.
+
+Lemma collapse_case : forall r, gen_ok r = true -> forall anc n, In (anc, n) (rnodes r) ->
+  collapse_bad n = true -> uncheck WCollapse (kind_of n) = true.
+Proof.
+  intros r Hg anc n Hp H. destruct n as [| | | d c b |]; try discriminate H.
+  destruct c as [c |]; [| discriminate H]. simpl in H. apply andb_true_iff in H as [Hc Hn].
+  apply negb_true_iff in Hn. unfold uncheck. cbn [kind_of]. rewrite Hc.
+  destruct (coll_cover (ND d)) eqn:E; [| reflexivity].
+  unfold coll_cover in E. apply existsb_exists in E as [ru [Hru Hf]].
+  pose proof (gen_ok_rule r Hg anc (Dir d (Some c) b) Hp _ Hru) as He.
+  destruct ru as [| | | | atoms | |]; try discriminate Hf.
+  apply andb_true_iff in Hf as [F1 F2].
+  destruct c as [| c]; [simpl in Hn; discriminate Hn |].
+  cbn [rule_eval collapse_of body_of] in He.
+  rewrite (collapse_walk_perfect atoms F1 F2 _ _ He) in Hn. discriminate Hn.
+Qed.
+
+(* ---------------------------------------------------------------- main statement *)
+Theorem gen_ok_wf_unchecked_ : forall r, gen_ok r = true ->
+  forall anc n cl, In (anc, n) (rnodes r) -> wf_node (rkinds r) (anc, n) = Some cl -> uncheck cl (kind_of n) = true.
+Proof.
+  intros r Hg anc n cl Hp H. unfold wf_node in H. cbn [fst snd] in H.
+  destruct (orphan_b (rkinds r) anc (kind_of n)) eqn:E1.
+  { inversion H; subst. eapply orphan_case; eassumption. }
+  destruct (nested_b anc (kind_of n)) eqn:E2.
+  { inversion H; subst. eapply nested_case; eassumption. }
+  destruct (collapse_bad n) eqn:E3.
+  { inversion H; subst. eapply collapse_case; eassumption. }
+  discriminate H.
+Qed.
+
+(* today's tables leave exactly (at most) the four known gaps *)
+Lemma gaps_bounded_now : gaps_bounded = true.
 Proof. vm_compute. reflexivity. Qed.
+
+Lemma all_nkinds_complete : forall k, In k all_nkinds.
+Proof. intro k. apply mem_In. destruct k as [| | | [] | [] | []]; reflexivity. Qed.
+
+Lemma wfclause_eqb_eq : forall a b, wfclause_eqb a b = true -> a = b.
+Proof. destruct a, b; simpl; intro H; try reflexivity; discriminate H. Qed.
+
+Lemma uncheck_known : forall cl k, uncheck cl k = true -> In (cl, k) known_gaps.
+Proof.
+  intros cl k H. pose proof gaps_bounded_now as G. unfold gaps_bounded in G.
+  rewrite forallb_forall in G.
+  assert (Hcl : In cl all_clauses) by (destruct cl; simpl; tauto).
+  specialize (G cl Hcl). rewrite forallb_forall in G. specialize (G k (all_nkinds_complete k)).
+  rewrite H in G. simpl in G. unfold in_gaps in G. apply existsb_exists in G as [[c' k'] [Hin He]].
+  apply andb_true_iff in He as [E1 E2]. apply wfclause_eqb_eq in E1. apply nkind_eqb_eq in E2.
+  simpl in E1, E2. subst. exact Hin.
+Qed.
+
+Theorem gen_ok_wf_gaps_ : forall r, gen_ok r = true ->
+  forall anc n cl, In (anc, n) (rnodes r) -> wf_node (rkinds r) (anc, n) = Some cl -> In (cl, kind_of n) known_gaps.
+Proof. intros. apply uncheck_known. eapply gen_ok_wf_unchecked_; eassumption. Qed.
